@@ -222,18 +222,21 @@ AppliedOf(u, set, ms) ==
                         IN [i \in DOMAIN ns |-> <<ns[i], ms[ns[i]].uid>>]
 
 Store(s, u, set, mode, F, silent) ==
-    /\ "Store" \in Acts /\ CanRun(s) /\ Selected(s) /\ ~ss[s].ro
+    /\ "Store" \in Acts /\ CanRun(s) /\ Selected(s)
     /\ LET m == ss[s].sel
            g == Gate(s, "STORE", u)
            ev0 == [Ev("Store", s) EXCEPT !.uid = u, !.set = set, !.mode = mode,
                       !.flags = SetToSeq(F), !.silent = silent, !.src = m]
        IN
        /\ Clean(m)
-       /\ IF ~g.ok THEN
+       /\ IF ss[s].ro \/ ~g.ok THEN      \* EXAMINE session: read-only; or EXPUNGEs pended
             /\ Finish(Acc0, Acc0, [ev0 EXCEPT !.status = "NO"])
             /\ UNCHANGED <<msgs, fseq>>
           ELSE IF ~u /\ ~ValidSeq(set, Len(msgs[m])) THEN
             /\ Finish(g.acc, [ss |-> g.acc.ss, out |-> NoOut], [ev0 EXCEPT !.status = "BAD"])
+            /\ UNCHANGED <<msgs, fseq>>
+          ELSE IF "Recent" \in F THEN        \* \Recent can not be stored
+            /\ Finish(g.acc, [ss |-> g.acc.ss, out |-> NoOut], [ev0 EXCEPT !.status = "NO"])
             /\ UNCHANGED <<msgs, fseq>>
           ELSE
             LET addr == AddrOf(u, set, msgs[m])
